@@ -57,3 +57,37 @@ theorem C12_tuple_arity (P : Prims) (id : Nat) (sp : Sp) (elems : Items) (vs : L
   simp [frontier, hs, hl]
 
 end AsModel
+
+namespace AsModel
+
+theorem rootSps_length : ∀ (items : Items), items.rootSps.length = items.rootNames.length
+  | .nil => rfl
+  | .cons ops key p tl => by
+    unfold Items.rootSps Items.rootNames
+    cases h : ops.bind FieldOps.rootFieldName? with
+    | none => simpa using rootSps_length tl
+    | some f => simp [rootSps_length tl]
+
+theorem dedupSps_length : ∀ (fs : List FieldName) (ss : List Sp) (seen : List FieldName),
+    ss.length = fs.length → (dedupSps fs ss seen).length = (dedupNames fs seen).length
+  | [], [], _, _ => by simp [dedupSps, dedupNames]
+  | [], _ :: _, _, h => by simp at h
+  | _ :: _, [], _, h => by simp at h
+  | f :: fs, s :: ss, seen, h => by
+    unfold dedupSps dedupNames
+    have h' : ss.length = fs.length := by simpa using h
+    split
+    · exact dedupSps_length fs ss seen h'
+    · simp [dedupSps_length fs ss (f :: seen) h']
+
+/-- **Every listed field keeps its key in the rendered destructuring pattern.** Since /repo
+757d3fe the renderer pairs each listed field with the span of the access that first named it
+(`fields.zip fsps`); the two lists the generator hands it have the same length, so the pairing
+drops no field: the keys rendered are exactly `dedupNames fields.rootNames []`, in order. -/
+theorem C12_listed_fields_all_keyed (fields : Items) :
+    ((dedupNames fields.rootNames []).zip (dedupSps fields.rootNames fields.rootSps [])).map (·.1) =
+      dedupNames fields.rootNames [] := by
+  have hl := dedupSps_length fields.rootNames fields.rootSps [] (rootSps_length fields)
+  exact List.map_fst_zip (Nat.le_of_eq hl.symm)
+
+end AsModel
